@@ -426,6 +426,178 @@ def guard_points(name, opts, vals, rng):
 
 
 # ----------------------------------------------------------------------------
+# input class X (C01, oracle only): exponents at / just either side of EVERY
+# threshold at which some method could switch branch (EPS and the isclose windows
+# 1e-8 around 0, 1e-8 + 2e-5 around 2) x arguments whose logarithm is large
+# (x + nu resp. 1 + |w| from 1e-100 to 1e100).  A pair forward/backward that
+# selects its branch from two different tests agrees to ~lam*ln(z)^2/2 only,
+# which is invisible for |ln z| <= 11.5 (the points of `points`) and lam <= 1e-8.
+# Inside the property's region: |lam*ln z| <= 13.8, no cancellation in x + nu.
+# Measured on the unchanged code: round-trip error <= 0.06 x the oracle's tolerance (worst at
+# |lam| = 1.5e-10, where the tolerance is the widened one of c01.rt_rtol); no failure with the
+# tolerance divided by 15.
+
+XLOGS = [1e-100, 1e-30, 1e-12, 1e12, 1e30, 1e100]     # x + nu, resp. |w| (>= 1e12 only)
+TINY_MININU = 1e-120                                  # lets x + nu = 1e-100 be formed exactly
+
+
+def _pm(vals):
+    out = []
+    for v in vals:
+        out += [v, -v] if v != 0 else [v]
+    return out
+
+
+def threshold_offsets(e, wide=True):
+    """distances from a branch value (0, or 2 for Yeo-Johnson) at and around every
+    threshold met in the module: EPS, isclose atol = 1e-8, isclose at 2 = 1e-8 + 2e-5
+    (`wide`: the last one too)"""
+    a0, a2 = 1e-8, 1e-8 + 1e-5 * 2.0
+    s = [0.0, e, _ulp_up(e), _ulp_dn(e), 1.5 * e, 2 * e, 1e-9, 2e-9, 5e-9,
+         a0, _ulp_up(a0), _ulp_dn(a0), 2e-8, 1e-7, 1e-5, 1e-3, 0.1]
+    if wide:
+        s += [5 * e, 1.5e-8, 5e-8, 1e-6, 2e-5, a2, _ulp_up(a2), _ulp_dn(a2), 2.5e-5, 3e-5, 5e-5, 1e-4, 1e-2]
+    return s
+
+
+def extreme_vectors(name):
+    """[(constructor options, parameter values)] of input class X"""
+    e = eps()
+    out = []
+    if name == "Log":
+        for opts in ({}, {"base": 10.0}, {"base": 2.0}, {"base": 0.5}, {"mininu": 1.0, "base": 3.0},
+                     {"mininu": TINY_MININU}, {"mininu": TINY_MININU, "base": 10.0}):
+            lo = full_opts(name, opts)["mininu"]
+            for nu in (lo, lo + 1e-3, 1.0, 30.0):
+                if nu >= lo:
+                    out.append((dict(opts), {"nu": nu}))
+    elif name in ("BoxCox2", "BoxCox1lam", "BoxCox1nu", "BoxCox2sym"):
+        for opts in ({}, {"minilam": -3.0}, {"mininu": 1.0, "minilam": -1.0},
+                     {"mininu": TINY_MININU, "minilam": -1.0}):
+            b = bounds(name, opts)
+            lo, llo, lhi = b["nu"][2], b["lam"][2], b["lam"][3]
+            k = 0
+            for lam in _pm(threshold_offsets(e, wide=False)):
+                if not llo <= lam <= lhi:
+                    continue
+                k += 1
+                for nu in ((lo, 1.0), (lo + 1e-3, 30.0))[k % 2]:
+                    if nu >= lo:
+                        out.append((dict(opts), {"nu": nu, "lam": lam}))
+    elif name == "YeoJohnson":
+        b = bounds(name, {})
+        combos = [(0.0, 1.0), (0.5, b["scale"][2]), (-3.0, 1e-3), (100.0, 10.0), (0.0, 1e3), (-0.5, 2.0)]
+        k = 0
+        for centre in (0.0, 2.0):
+            for d in _pm(threshold_offsets(e)):
+                lam = centre + d
+                if not b["lam"][2] <= lam <= b["lam"][3]:
+                    continue
+                for j in range(2):
+                    nu, sc = combos[(k + j) % len(combos)]
+                    out.append(({}, {"nu": nu, "scale": sc, "lam": lam}))
+                k += 1
+    return out
+
+
+def extreme_points(name, opts, vals):
+    """points of input class X for the (effective) values `vals`, inside the
+    conditioning region of the property"""
+    xs = []
+    if name in ("Log", "BoxCox2", "BoxCox1lam", "BoxCox1nu", "BoxCox2sym"):
+        nu, lam = vals["nu"], vals.get("lam", 0.0)
+        if name == "BoxCox2sym" and not (nu > 0 and abs(lam * math.log(nu)) <= LNMAX):
+            return xs
+        for z in XLOGS:
+            x = z - nu
+            if name == "BoxCox2sym" and x <= 0:
+                continue
+            for s in ((1, -1) if name == "BoxCox2sym" else (1,)):
+                zz = abs(x) + nu if name == "BoxCox2sym" else x + nu
+                if not zz > 0 or abs(lam * math.log(zz)) > LNMAX:
+                    continue
+                if max(abs(x), abs(nu)) > 1e6 * zz:      # same rule as `points`
+                    continue
+                xs.append(float(s * x))
+    elif name == "YeoJohnson":
+        nu, sc, lam = vals["nu"], vals["scale"], vals["lam"]
+        for a in XLOGS:
+            if a < 1:
+                continue
+            for w in (a, -a):
+                x = (w - nu) / sc
+                ww = nu + x * sc
+                ex_ = lam if ww >= eps() else 2 - lam
+                if abs(ex_ * math.log1p(abs(ww))) > LNMAX or not math.isfinite(x):
+                    continue
+                xs.append(float(x))
+    return xs
+
+
+# ----------------------------------------------------------------------------
+# stateful mode (C01, oracle only): ONE object taken through a sequence of
+# parameter settings, changed the ways the public API offers
+
+STYLES = ("attr", "item", "vector-item", "vector-attr", "values", "reset")
+
+
+def value_names(t):
+    return [str(n) for n in t.params.names] + [str(n) for n in t.constants.names]
+
+
+def stored_values(t):
+    return {n: float(t[n]) for n in value_names(t)}
+
+
+def apply_step(t, style, changes):
+    """change the stored values of `t` in place.  attr: t.lam = v; item: t["lam"] = v;
+    vector-item: t.params["lam"] = v; vector-attr: t.params.lam = v (all four assign ONE
+    element of the existing array); values: t.params.values = [...] (new array);
+    reset: t.reset() (parameters back to their defaults, `changes` ignored)"""
+    if style == "reset":
+        t.reset()
+        return
+    if style == "values":
+        for vec in (t.params, t.constants):
+            names = [str(n) for n in vec.names]
+            if any(n in changes for n in names):
+                vec.values = [changes[n] if n in changes else float(vec[n]) for n in names]
+        return
+    for k, v in changes.items():
+        vec = t.params if k in [str(n) for n in t.params.names] else t.constants
+        if style == "attr":
+            setattr(t, k, v)
+        elif style == "item":
+            t[k] = v
+        elif style == "vector-item":
+            vec[k] = v
+        elif style == "vector-attr":
+            setattr(vec, k, v)
+        else:
+            raise KeyError(style)
+
+
+def stateful_plan(name, opts, rng, nsteps):
+    """(first setting, [(style, {name: value})]): settings drawn from `param_vectors`
+    (branch values first) in random order; element-wise styles change either every
+    value or one value only (the others keep what the history left)"""
+    nspecial = {"BoxCox2": 23, "BoxCox1lam": 23, "BoxCox1nu": 23, "BoxCox2sym": 23, "YeoJohnson": 27,
+                "Manly": 17}.get(name, 8)
+    vecs = param_vectors(name, opts, rng, nspecial + 6)
+    rng.shuffle(vecs)
+    first, steps = vecs[0], []
+    off = rng.randrange(len(STYLES))
+    for i in range(nsteps):
+        style = STYLES[(i + off) % len(STYLES)]
+        target = dict(vecs[(i + 1) % len(vecs)])
+        if style not in ("reset", "values") and len(target) > 1 and rng.random() < 0.5:
+            k = sorted(target)[rng.randrange(len(target))]
+            target = {k: target[k]}
+        steps.append((style, {} if style == "reset" else target))
+    return first, steps
+
+
+# ----------------------------------------------------------------------------
 # forward-error amplification of the implementation's own float algorithm at a
 # point (a priori bound; tolerance = 1e-10*max(1,|y|) + 16*2^-53*A)
 
